@@ -1,6 +1,7 @@
 package smtp
 
 import (
+	"bufio"
 	"errors"
 	"io"
 )
@@ -21,6 +22,31 @@ type lineLimitReader struct {
 	// followed the last complete line of a Read in which a later line went
 	// over the limit.
 	held []byte
+
+	// skip is the number of octets still to come that are not lines but the
+	// rest of a BDAT chunk: they are passed on without being looked at.
+	skip int64
+}
+
+// passChunk announces that the size octets which follow the command line
+// just taken from br (which reads from r) are chunk data, not lines. The part
+// of the chunk that br holds already has been counted as if it were a line:
+// that count is dropped. If br holds more than the chunk, what follows the
+// chunk is counted again.
+func (r *lineLimitReader) passChunk(br *bufio.Reader, size int64) {
+	r.curLineLength = 0
+	buffered := int64(br.Buffered())
+	if buffered <= size {
+		r.skip = size - buffered
+		return
+	}
+	rest, _ := br.Peek(int(buffered))
+	for _, chr := range rest[size:] {
+		if chr == '\n' {
+			r.curLineLength = 0
+		}
+		r.curLineLength++
+	}
 }
 
 // exceeded reports whether the current line has been refused.
@@ -46,15 +72,22 @@ func (r *lineLimitReader) Read(b []byte) (int, error) {
 	}
 
 	if r.LineLimit == 0 {
-		// What is read while the limit is switched off (a BDAT chunk) is
-		// not part of a line: start counting afresh once it is back on.
-		r.curLineLength = 0
 		return n, nil
 	}
 
+	// Chunk data comes first, it is handed out as it is.
 	lineStart := 0
-	for i, chr := range b[:n] {
-		if chr == '\n' {
+	if r.skip > 0 {
+		k := int64(n)
+		if k > r.skip {
+			k = r.skip
+		}
+		r.skip -= k
+		lineStart = int(k)
+	}
+
+	for i := lineStart; i < n; i++ {
+		if b[i] == '\n' {
 			r.curLineLength = 0
 			lineStart = i + 1
 		}
@@ -62,13 +95,15 @@ func (r *lineLimitReader) Read(b []byte) (int, error) {
 
 		if r.curLineLength > r.LineLimit {
 			if lineStart > 0 {
-				// Complete lines precede the one that is too long: they
-				// are handed out first (they may be commands that have to
-				// be answered, or a BDAT command whose chunk is what
-				// looks like a long line here). The rest is looked at
-				// again by the next Read.
+				// Chunk data or complete lines precede the line that is
+				// too long: they are handed out first (the lines may be
+				// commands that have to be answered). The rest is looked
+				// at again by the next Read.
 				r.held = append(append([]byte(nil), b[lineStart:n]...), r.held...)
-				r.curLineLength = 1
+				r.curLineLength = 0
+				if b[lineStart-1] == '\n' {
+					r.curLineLength = 1
+				}
 				return lineStart, nil
 			}
 			return 0, ErrTooLongLine
